@@ -56,13 +56,20 @@ type Monitors struct {
 	storedIDs    map[string]bool // payload ids ever stored on any server
 	taint        string
 	lease        *leaseState
+	restores     []*restoreRec
+	restoreFloor map[[2]int]uint64
+	floorByData  map[string]uint64
+	acks         []ackRec
+	leaderAt     map[uint64]leaderRec
+	transitions  map[[2]int]int // leadership gains + losses per incarnation (observer)
+	wasLeader    map[[2]int]bool
 	prevote      *prevoteState
 }
 
 func newMonitors(w *World) *Monitors {
 	return &Monitors{w: w, agreed: map[uint64]fact{}, leaders: map[uint64]int{}, senders: map[uint64]int{}, streams: map[[2]int]*fsmStream{},
 		lastCommit: map[[2]int]uint64{}, lastTerm: map[int]uint64{}, grants: map[grantKey]string{}, notify: map[[2]int][]bool{}, leadGains: map[[2]int]int{},
-		storedIDs: map[string]bool{}}
+		storedIDs: map[string]bool{}, transitions: map[[2]int]int{}, wasLeader: map[[2]int]bool{}, leaderAt: map[uint64]leaderRec{}, restoreFloor: map[[2]int]uint64{}, floorByData: map[string]uint64{}}
 }
 
 // rootCause records a violation that is the origin of others: every later
@@ -189,14 +196,15 @@ func (m *Monitors) OnServerPanic(node, inc int, v any, stack string) {
 		return
 	}
 	fn := panicSite(stack)
-	m.fail("PANIC", "panic:"+fn, "n%d.%d panicked: %v (in %s)", node, inc, v, fn)
+	// a panic takes the whole process down: every caller of this server is stranded (C17)
+	m.fail("C17", "panic:"+fn, "n%d.%d panicked: %v (in %s)", node, inc, v, fn)
 }
 
 func panicSite(stack string) string {
 	for _, ln := range strings.Split(stack, "\n") {
 		if strings.Contains(ln, "hashicorp/raft.") && !strings.Contains(ln, "zzverif") {
 			s := ln[strings.Index(ln, "hashicorp/raft.")+len("hashicorp/raft."):]
-			if i := strings.Index(s, "("); i > 0 && !strings.HasPrefix(s, "(") {
+			if i := strings.LastIndex(s, "("); i > 0 {
 				s = s[:i]
 			}
 			return s
@@ -229,11 +237,22 @@ func (m *Monitors) OnObservation(node, inc int, o *raft.Observation) {
 	switch d := o.Data.(type) {
 	case raft.RaftState:
 		term := o.Raft.CurrentTerm()
+		k := [2]int{node, inc}
+		if d == raft.Leader && !m.wasLeader[k] {
+			m.wasLeader[k] = true
+			m.transitions[k]++
+		} else if d != raft.Leader && m.wasLeader[k] {
+			m.wasLeader[k] = false
+			m.transitions[k]++
+		}
 		if d == raft.Leader {
 			if prev, ok := m.leaders[term]; ok && prev != node {
 				m.fail("C01", "two-leaders-one-term", "n%d and n%d both became leader in term %d", prev, node, term)
 			}
 			m.leaders[term] = node
+			if _, ok := m.leaderAt[term]; !ok {
+				m.leaderAt[term] = leaderRec{node, m.w.events}
+			}
 			m.leadGains[[2]int{node, inc}]++
 			m.checkLeaderCompleteness(m.w.nodes[node], "on election")
 			// C07: an elected server is a voter of its own latest configuration
@@ -310,7 +329,7 @@ func (m *Monitors) OnSend(msg *Msg) {
 	}
 }
 func (m *Monitors) OnDeliver(msg *Msg, inc int, discard bool) {}
-func (m *Monitors) OnHandled(msg *Msg)                       {}
+func (m *Monitors) OnHandled(msg *Msg)                        {}
 
 func (m *Monitors) OnReply(msg *Msg) {
 	w := m.w
@@ -330,6 +349,9 @@ func (m *Monitors) OnReply(msg *Msg) {
 		}
 	case *raft.AppendEntriesRequest:
 		resp, _ := msg.Resp.Response.(*raft.AppendEntriesResponse)
+		if resp != nil && resp.Success {
+			m.acks = append(m.acks, ackRec{from: msg.From, to: msg.To, term: req.Term, delivAt: msg.DelivAt, repliedAt: w.events})
+		}
 		if resp == nil || !resp.Success || len(req.Entries) == 0 {
 			return
 		}
@@ -447,6 +469,7 @@ func (m *Monitors) OnApply(node, inc int, a Applied, batch bool) {
 	}
 	s := m.stream(node, inc)
 	n := m.w.nodes[node]
+	m.restoreApply(node, inc, a)
 	if a.Index <= s.last {
 		m.fail("C02", "fsm-index-not-increasing", "n%d.%d FSM given index %d after %d", node, inc, a.Index, s.last)
 	}
@@ -504,8 +527,11 @@ func (m *Monitors) OnRestore(node, inc int, content []Applied, raw []byte) {
 	var last uint64
 	for _, a := range content {
 		if a.Type == 255 {
-			// user-supplied snapshot: C20 handles it
+			// user-supplied snapshot: C20 handles it; the stream continues above the snapshot just created/installed
 			s.last = 0
+			if sn := m.w.nodes[node].snaps.Newest(); sn != nil {
+				s.last = sn.meta.Index
+			}
 			s.started = true
 			m.userRestore(node, inc, a.Data)
 			return
@@ -533,8 +559,6 @@ func (m *Monitors) OnRestore(node, inc int, content []Applied, raw []byte) {
 	m.w.logf("n%d.%d RESTORE up to %d (%d records)", node, inc, last, len(content))
 }
 
-func (m *Monitors) userRestore(node, inc int, data string) {}
-
 func (m *Monitors) OnFSMSnapshot(node, inc int, content []Applied) {}
 
 // ---------------------------------------------------------------------------
@@ -544,10 +568,18 @@ func (m *Monitors) OnInvoke(c *Call) {}
 func (m *Monitors) OnReturn(c *Call) {
 	m.w.logf("RETURN call%d %s on n%d: err=%v index=%d", c.ID, c.Kind, c.Node, c.Err, c.Index)
 	n := m.w.nodes[c.Node]
+	if c.Kind == "restore-must-fail" {
+		m.restoreReturned(c)
+		return
+	}
 	if c.Err != nil {
 		return
 	}
 	switch c.Kind {
+	case "restore":
+		m.restoreReturned(c)
+	case "verify":
+		m.verifyReturned(c)
 	case "apply":
 		l := n.store.Peek(c.Index)
 		if l == nil {
@@ -635,6 +667,7 @@ func (m *Monitors) AtQuiescent() {
 	}
 	m.checkLogs()
 	m.timedChecks()
+	m.notifyChecks()
 }
 
 // checkLeaderCommit: C05 at a leader's report of commit index ci.
@@ -790,13 +823,23 @@ func (m *Monitors) AtEnd() {
 		return
 	}
 	m.timedEnd()
+	m.restoreEnd()
 	// C17: no client stuck for ever at a state where nothing can happen any more
-	if w.endWhy == "quiescent" {
+	{
 		for _, c := range w.calls {
-			if !c.Done {
+			if c.Done {
+				continue
+			}
+			// stuck for ever: nothing at all is enabled any more, or the server was shut down and none of its threads is left
+			n := w.nodes[c.Node]
+			serverGone := n.up && n.inc == c.Inc && n.r != nil && n.r.State() == raft.Shutdown && len(w.sched.Live(func(g int) bool { return g == n.group() })) == 0
+			if w.endWhy == "quiescent" || serverGone {
 				site := "?"
 				if c.Thread != nil {
 					site = c.Thread.What
+				}
+				if i := strings.Index(site, "#"); i > 0 {
+					site = site[:i] // the function the caller is parked in; the select's ordinal is not part of the signature
 				}
 				m.fail("C17", "stuck:"+c.Kind+"@"+site, "call%d %s on n%d never returned: nothing is enabled any more (parked at %s)", c.ID, c.Kind, c.Node, site)
 			}
